@@ -41,6 +41,12 @@ def direct() -> int:
 @guppy
 def main() -> int:
     return ov(1, 2)
+@guppy.comptime
+def traced(a: int) -> int:
+    return ov(a, a + 1)
+@guppy
+def main2() -> int:
+    return traced(3)
 """
 d = tempfile.mkdtemp(dir=os.environ.get("TMPDIR", "/var/tmp")); fn = os.path.join(d, "replay_c15.py"); open(fn, "w").write(src)
 spec = importlib.util.spec_from_file_location("replay_c15", fn); m = importlib.util.module_from_spec(spec); sys.modules["replay_c15"] = m
@@ -51,7 +57,12 @@ try:
         m.main.check(); ok = True; err = None
     except GuppyError as e:
         ok = False; err = type(e.error).__name__
-    out = {"violates": not ok, "overloaded_call_accepted": ok, "error": err, "note": "v2(1, 2) is accepted directly; ov(1, 2) must resolve to v2"}
+    try:
+        m.main2.compile_function(); ok2 = True; err2 = None
+    except Exception as e:
+        ok2 = False; err2 = type(e).__name__ + ": " + str(e)[:120]
+    out = {"violates": not ok or not ok2, "overloaded_call_accepted": ok, "error": err, "overloaded_call_from_comptime_code_compiles": ok2, "comptime_error": err2,
+           "note": "v2(1, 2) is accepted directly; ov(1, 2) must resolve to v2; the same call with traced arguments inside a comptime function must compile"}
 except Exception as ex:
     out = {"violates": False, "error": repr(ex)[:300]}
 shutil.rmtree(d, ignore_errors=True)
